@@ -27,6 +27,12 @@ class Operator(Expr):
         # algebra.py, for now.  It would be nicer to make the classes
         # in algebra.py pass operands here.
         if operands is not None:
+            if hasattr(self, "ufl_operands"):
+                # A simplifying __new__ returned an existing node of this
+                # class (e.g. abs(abs(f)) -> abs(f)) and Python runs
+                # __init__ on it again with the outer arguments: an
+                # expression node is immutable, keep its operands
+                return
             self.ufl_operands = operands
 
     def _ufl_expr_reconstruct_(self, *operands):
